@@ -1,0 +1,25 @@
+//! Verification hooks: additive wrappers that expose crate-private items to an external test
+//! harness. Compiled only with the `verif` feature; nothing in the program uses them.
+
+use anchor_lang::prelude::*;
+
+use crate::states::GtBank;
+
+/// `GtBank::confirm_unchecked`.
+pub fn gt_bank_confirm(bank: &mut GtBank, gt_amount: u64) -> Result<()> {
+    bank.confirm_unchecked(gt_amount)
+}
+
+/// `GtBank::reserve_balances`.
+pub fn gt_bank_reserve_balances(
+    bank: &mut GtBank,
+    numerator: &u128,
+    denominator: &u128,
+) -> Result<()> {
+    bank.reserve_balances(numerator, denominator)
+}
+
+/// `GtBank::record_transferred_in`.
+pub fn gt_bank_record_transferred_in(bank: &mut GtBank, token: &Pubkey, amount: u64) -> Result<()> {
+    bank.record_transferred_in(token, amount)
+}
